@@ -111,17 +111,15 @@ pub fn verify_presentation(
         let (requested_predicates, pred_nonrevoked_interval) =
             pres_req.get_requested_predicates(&predicates)?;
 
-        {
-            check_non_revoked_interval(
-                proof_verifier.get_credential_definition(&identifier.cred_def_id)?,
-                attrs_nonrevoked_interval,
-                pred_nonrevoked_interval,
-                pres_req,
-                identifier.rev_reg_id.as_ref(),
-                nonrevoke_interval_override,
-                identifier.timestamp,
-            )?;
-        }
+        let non_revocation_required = check_non_revoked_interval(
+            proof_verifier.get_credential_definition(&identifier.cred_def_id)?,
+            attrs_nonrevoked_interval,
+            pred_nonrevoked_interval,
+            pres_req,
+            identifier.rev_reg_id.as_ref(),
+            nonrevoke_interval_override,
+            identifier.timestamp,
+        )?;
 
         let sub_proof = presentation
             .proof
@@ -134,6 +132,10 @@ pub fn verify_presentation(
                     sub_proof_index
                 )
             })?;
+
+        if non_revocation_required {
+            require_non_revocation_proof(sub_proof)?;
+        }
         // every predicate requested from this credential must be the one its sub-proof proves
         verify_requested_predicates(&requested_predicates, sub_proof)?;
 
@@ -868,11 +870,11 @@ pub(crate) fn check_non_revoked_interval(
         &HashMap<RevocationRegistryDefinitionId, HashMap<u64, u64>>,
     >,
     timestamp: Option<u64>,
-) -> Result<()> {
+) -> Result<bool> {
     // Whether non-revocation must be shown is decided by the credential definition the
     // verifier holds, never by what the presentation says about itself.
     if cred_def.value.revocation.is_none() {
-        return Ok(());
+        return Ok(false);
     }
 
     // Collapse to the most stringent local interval for the attributes / predicates,
@@ -891,14 +893,14 @@ pub(crate) fn check_non_revoked_interval(
     // the request-wide interval applies when there is no local one
     let interval = match local_interval.or_else(|| pres_req.non_revoked.clone()) {
         Some(interval) => interval,
-        None => return Ok(()),
+        None => return Ok(false),
     };
 
     let rev_reg_id = rev_reg_id.ok_or_else(|| {
         err_msg!("Identifier revocation registry id not found for revocation check")
     })?;
-    let timestamp = timestamp
-        .ok_or_else(|| err_msg!("Identifier timestamp not found for revocation check"))?;
+    let timestamp =
+        timestamp.ok_or_else(|| err_msg!("Identifier timestamp not found for revocation check"))?;
 
     // Override Interval if an earlier `from` value is accepted by the verifier
     let interval = get_requested_non_revoked_interval(
@@ -911,6 +913,25 @@ pub(crate) fn check_non_revoked_interval(
 
     interval.is_valid(timestamp)?;
 
+    // an interval applies to this credential and the named timestamp lies inside it
+    Ok(true)
+}
+
+/// The CL layer verifies a non-revocation proof only if the sub-proof carries one and silently
+/// skips the check otherwise, so its presence has to be demanded here. The sub-proof keeps its
+/// non-revocation part private; the serialized form is the only public view of it.
+pub(crate) fn require_non_revocation_proof(sub_proof: &SubProof) -> Result<()> {
+    let value = serde_json::to_value(sub_proof)
+        .map_err(err_map!(Unexpected, "Unable to inspect the sub proof"))?;
+    let present = value
+        .get("non_revoc_proof")
+        .map_or(false, |proof| !proof.is_null());
+    if !present {
+        return Err(err_msg!(
+            ProofRejected,
+            "Non-revocation proof is required but the presentation does not contain one"
+        ));
+    }
     Ok(())
 }
 
